@@ -1,11 +1,11 @@
 SPECIFICATION Spec
 CONSTANTS
-  Cons <- BindDeep
+  Cons <- StmtCons
   Terms = {"semi"}
   MaxE = 0
-  MaxS = 1
-  MaxX = 3
+  MaxS = 3
+  MaxX = 2
   MaxP = 0
   MaxL = 0
-  MaxTop = 1
+  MaxTop = 2
 CHECK_DEADLOCK FALSE
